@@ -63,6 +63,9 @@ type pSim struct {
 	nLabel int
 	// junk: probability (percent) that a Verify(remember) call carries trailing junk hashes
 	junkPct int
+	// edgeBias (many-tree forests): half of the leaf sets of randomOp are drawn from the last
+	// 24 live leaves (the small trees at the right edge)
+	edgeBias bool
 }
 
 func newPSim(g *Gen) *pSim {
@@ -467,6 +470,10 @@ func (s *pSim) randomOp(in *pInst) {
 		if len(live) == 0 {
 			return nil
 		}
+		live := live
+		if s.edgeBias && len(live) > 24 && g.Intn(2) == 0 {
+			live = live[len(live)-24:]
+		}
 		n := 1 + g.Intn(len(live))
 		if g.Intn(3) != 0 && len(live) > 4 {
 			n = 1 + g.Intn(4)
@@ -744,6 +751,11 @@ func famPartial(g *Gen, tier string, shard, nshards int) {
 		if g.Intn(3) == 0 {
 			s.newEmpty([]uint8{0, 63, 4}[g.Intn(3)], true)
 		}
+		// one history in four lives in a forest of many trees (9 or more roots, rows >= 9)
+		if h%4 == 3 {
+			famPartialMany(s, shard*nHist/4+h/4, tier)
+			continue
+		}
 		remProb := []int{10, 30, 50, 80}[g.Intn(4)]
 		flags := func(in *pInst, i int) bool { return g.Intn(100) < remProb }
 		nBlocks := 3 + g.Intn(maxBlocks)
@@ -946,6 +958,93 @@ func famPartialExh(g *Gen, tier string, shard, nshards int) {
 							// prune everything after the undo
 							s.opPrune(in, in.cachedList())
 						}
+					}
+				}
+			}
+		}
+	}
+}
+
+// famPartialMany: partial map forests in a many-tree forest.  The first block adds 509..2046
+// leaves (thorough: also 4095 and 8190); an instance remembers a few leaves spread over the
+// forest and most of the last 40 additions (the small trees at the right edge) — one history
+// in four remembers a third of all leaves, so that CachedLeaves holds more than 255 entries.
+// Then short blocks (deletions at the right edge, spread, all but one leaf of a big tree, whole
+// small trees; few additions), random operations in between whose leaf sets are drawn from the
+// right edge half of the time, instances started from the bare roots, undo.
+func famPartialMany(s *pSim, k int, tier string) {
+	g := s.g
+	n := manyTreeCount(k)
+	if tier == "thorough" && k%8 == 7 {
+		n = []int{4095, 8190}[(k/8)%2] // 12 roots; the replay on the list-based model is slow beyond
+	}
+	s.edgeBias = true
+	spread := 3
+	if k%4 == 1 {
+		spread = 33
+	}
+	hasFull := false
+	for _, in := range s.insts {
+		hasFull = hasFull || in.full
+	}
+	if (hasFull || spread > 3) && n > 1023 {
+		// hundreds of cached leaves: every operation is replayed on the list-based model and
+		// followed by a full dump, so these sessions stay at 10 trees / 1023 leaves
+		n = []int{1023, 767, 1022, 511}[k%4]
+	}
+	total := 0
+	flags := func(in *pInst, i int) bool {
+		if total+i >= n-40 {
+			return g.Intn(3) != 0
+		}
+		return g.Intn(100) < spread
+	}
+	for total < n {
+		c := min(n-total, 2048)
+		s.block(nil, c, flags)
+		total += c
+	}
+	lateFlags := func(in *pInst, i int) bool { return g.Intn(2) == 0 }
+	nBlocks := 3 + g.Intn(4)
+	for b := 0; b < nBlocks; b++ {
+		style := manyTreeStyle(g)
+		if b == 0 && k%3 == 2 {
+			style = 2
+		}
+		nAdds := manyTreeAdds(g)
+		if style == 3 {
+			nAdds = 1 + g.Intn(4) // additions overwrite the emptied roots
+		}
+		// (a partial forest first has to learn every leaf it deletes: the climbing deletions
+		// take a tree of at most 256 leaves here)
+		s.block(manyTreeDeletionsR(g, s.alive, style, 8), nAdds, lateFlags)
+		if g.Intn(4) == 0 && len(s.insts) < 5 {
+			if g.Intn(3) == 0 {
+				s.fromRootsRows(u.TreeRows(s.numLeaves()) + uint8(g.Intn(3)))
+			} else {
+				s.fromRoots()
+			}
+		}
+		for _, in := range s.insts {
+			kk := g.Intn(4)
+			for i := 0; i < kk; i++ {
+				s.randomOp(in)
+			}
+		}
+		if g.Intn(4) == 0 {
+			for _, in := range s.insts {
+				if !in.dead {
+					s.opQueries(in, false)
+				}
+			}
+		}
+		if len(s.hist) > 1 && g.Intn(4) == 0 {
+			kk := 1 + g.Intn(min(len(s.hist)-1, 2))
+			for i := 0; i < kk; i++ {
+				s.undo()
+				if g.Intn(2) == 0 {
+					for _, in := range s.insts {
+						s.randomOp(in)
 					}
 				}
 			}
